@@ -47,6 +47,8 @@ var Captures = map[string][]Datagram{
 	"P0.pcap": {{0, true, -1000, "early"}},
 	// a valid capture without packets
 	"EMPTY.pcap": {},
+	// P6 only continues flow a (after P3): the index file it creates holds nothing but an old, low stream id
+	"P6.pcap": {{0, false, 2500, "foo6"}},
 	// P5 = {d}: a new stream that matches none of the port-1 tags
 	"P5.pcap": {{3, false, 4000, "dns2"}},
 }
